@@ -6,39 +6,39 @@ Import ListNotations.
 
 Theorem c11_stage_translator_ok : StageTokens_translator_ok = true.
 Proof. exact (eq_refl true). Qed.
-(* runGracefulStopStage calls Application.Shutdown unconditionally; Stop() runs it before Application.Close; the upgrade
-   handler shuts the servers down before it reports success *)
-Theorem c11_stop_always_drains : stop_always_drains = true.
-Proof. exact (eq_refl true). Qed.
+(* runGracefulStopStage calls Application.Shutdown unconditionally and NoticeStop ignores a reload once a stop has been
+   noticed; Stop() runs the graceful stage before Application.Close; the upgrade handler shuts the servers down before it
+   reports success *)
+Theorem c11_stage_flags : stage_flags = good.
+Proof. exact (eq_refl good). Qed.
 Theorem c11_stop_drains_before_close : stop_graceful_stage_before_close = true /\ upgrade_handler_drains_before_done = true.
 Proof. exact (conj eq_refl eq_refl). Qed.
 
-(* For EVERY admissible interleaving of SIGTERM, SIGHUP, the new server's dial (upgrade start), the upgrade handler's progress
-   (fds sent, ack, servers shut down, done) and failure, and the main goroutine's Stop(): Application.Close is never called
-   before a drain (Application.Shutdown by Stop, or shutdownServers by the upgrade handler) has been performed.
-   Admissible = no SIGINT/SIGQUIT (they ask for a stop without drain) and no SIGHUP in the window between the release of the
-   main goroutine and its Stop(). *)
+(* For EVERY interleaving of SIGTERM, SIGHUP, the new server's dial (upgrade start), the upgrade handler's progress (fds sent,
+   ack, servers shut down, done) and failure, and the main goroutine's Stop() - SIGINT/SIGQUIT excluded, they ask for a stop
+   without drain -: Application.Close is never called before a drain (Application.Shutdown by Stop, or shutdownServers by the
+   upgrade handler) has been performed. *)
 Theorem c11_close_never_before_drain : forall evs,
-  admissible stop_always_drains evs = true ->
-  drained_before_close (g_trace (g_run stop_always_drains evs)) = true.
+  admissible evs = true ->
+  drained_before_close (g_trace (g_run stage_flags evs)) = true.
 Proof. exact close_never_before_drain. Qed.
 Print Assumptions c11_close_never_before_drain.
 
 Example c11_stage_example :
-  admissible stop_always_drains [EvNewDial; EvHandlerStep; EvTerm; EvMainStop] = true /\
-  g_trace (g_run stop_always_drains [EvNewDial; EvHandlerStep; EvTerm; EvMainStop]) = [CDrainByStop; CClose] /\
-  g_trace (g_run stop_always_drains [EvNewDial; EvHandlerStep; EvHandlerStep; EvHandlerStep; EvHandlerStep; EvMainStop]) = [CDrainByHandler; CDrainByStop; CClose] /\
-  g_trace (g_run stop_always_drains [EvNewDial; EvHandlerFail; EvTerm; EvMainStop]) = [CDrainByStop; CClose].
+  g_trace (g_run stage_flags [EvNewDial; EvHandlerStep; EvTerm; EvMainStop]) = [CDrainByStop; CClose] /\
+  g_trace (g_run stage_flags [EvNewDial; EvHandlerStep; EvHandlerStep; EvHandlerStep; EvHandlerStep; EvMainStop]) = [CDrainByHandler; CDrainByStop; CClose] /\
+  g_trace (g_run stage_flags [EvNewDial; EvHandlerFail; EvTerm; EvMainStop]) = [CDrainByStop; CClose] /\
+  g_trace (g_run stage_flags [EvTerm; EvHup; EvMainStop]) = [CDrainByStop; CClose].
 Proof. vm_compute. repeat split; reflexivity. Qed.
 
 (* skipping the drain "because the state was Upgrading" is wrong: the state becomes Upgrading long before the handler drains *)
 Example c11_stage_skip_when_upgrading_refuted :
-  admissible false [EvNewDial; EvTerm; EvMainStop] = true /\
-  drained_before_close (g_trace (g_run false [EvNewDial; EvTerm; EvMainStop])) = false.
-Proof. vm_compute. split; reflexivity. Qed.
+  drained_before_close (g_trace (g_run (mkSF false true) [EvNewDial; EvTerm; EvMainStop])) = false.
+Proof. vm_compute. reflexivity. Qed.
 
-(* the side condition on SIGHUP cannot be dropped: the stop action is ONE field, the latest notice wins *)
-Example c11_stage_sighup_in_the_window :
-  drained_before_close (g_trace (g_run stop_always_drains [EvNewDial; EvTerm; EvHup; EvMainStop])) = false /\
-  admissible stop_always_drains [EvNewDial; EvTerm; EvHup; EvMainStop] = false.
+(* the code before fix c0bbda20b: a SIGHUP between SIGTERM and the main goroutine's Stop() overwrote the stop action (ONE
+   field, the latest notice wins) and Stop() skipped the graceful stage *)
+Example c11_stage_sighup_after_sigterm_refuted :
+  drained_before_close (g_trace (g_run (mkSF true false) [EvTerm; EvHup; EvMainStop])) = false /\
+  drained_before_close (g_trace (g_run (mkSF true false) [EvNewDial; EvTerm; EvHup; EvMainStop])) = false.
 Proof. vm_compute. split; reflexivity. Qed.
